@@ -51,6 +51,7 @@ SIG_STAR = "C13/select-star-over-uncached-table-keeps-star-column"
 SIG_DUPCTE = "C13/identical-select-texts-in-one-query-give-duplicate-cte-name"
 SIG_ALIASREF = "C13/select-alias-shadowing-an-input-column-is-expanded-into-where-while-schema-cache-empty"
 SIG_ALIAS = "C13/column-alias-equal-to-a-cte-name-is-renamed-to-the-cte-hash"
+SIG_REJOIN = "C13/joining-a-self-join-with-its-own-operand-again-multiplies-rows"
 SIG_SELFREF = "C13/view-shadowing-the-table-it-reads-is-spliced-into-its-own-chain"
 SIG_UNRESOLVED = "C13/unqualified-column-over-uncached-table-unresolvable-once-schema-cache-nonempty"
 
@@ -258,7 +259,7 @@ class HGen:
     def new(self):
         r = self.r
         self.heap = [{"cols": dict(zip(f["cols"], f["types"])), "ok": True, "embedded": set(), "star": False, "taint": None,
-                      "reads": set()} for f in BASE["frames"]]
+                      "reads": set(), "joined": set()} for f in BASE["frames"]]
         self.views = {}          # key -> {"cols", "embedded", "star", "taint"}
         self.cache = {}          # key -> column names in the schema cache (add-if-absent)
         self.keys = r.choice([["v", "w", "u"]] * 8 + [["v", "w", "bt"], ["v", "bt", "u"]])
@@ -564,9 +565,9 @@ class HGen:
     def hsig(hd):
         return hd["taint"] or (SIG_STAR if hd["star"] else None)
 
-    def push(self, cols, embedded=(), star=False, taint=None, ok=True, reads=()):
+    def push(self, cols, embedded=(), star=False, taint=None, ok=True, reads=(), joined=()):
         self.heap.append({"cols": cols, "ok": ok and cols is not None, "embedded": set(embedded), "star": star, "taint": taint,
-                          "reads": set(reads)})
+                          "reads": set(reads), "joined": set(joined)})
 
     def reads_of(self, q):
         cte_names = {n.lower() for n, _ in q["ctes"]}
@@ -668,9 +669,11 @@ class HGen:
             self.emit(["joinb", h1, h2, kcol, rc],
                       f"(SJoinB {natlit(h1)} {natlit(h2)} {strlit(kcol)} {listlit([strlit(c) for c in rc])})", "joinb", sig,
                       f"heap[{h1}].join(heap[{h2}].select({kcol!r}, others AS <c>_r), on={kcol!r})",
-                      ([sig] if sig else []) + ([SIG_DUPCTE] if self.heap[h1]["embedded"] or self.heap[h2]["embedded"] else []))
+                      ([sig] if sig else []) + ([SIG_DUPCTE] if self.heap[h1]["embedded"] or self.heap[h2]["embedded"] else [])
+                      + ([SIG_REJOIN] if h2 in self.heap[h1].get("joined", set()) else []))
             self.push(out, self.heap[h1]["embedded"] | self.heap[h2]["embedded"], taint=sig,
-                      reads=self.heap[h1]["reads"] | self.heap[h2]["reads"])
+                      reads=self.heap[h1]["reads"] | self.heap[h2]["reads"],
+                      joined=self.heap[h1].get("joined", set()) | self.heap[h2].get("joined", set()) | {h1, h2})
             return
         h = r.randrange(len(self.heap))
         hd = self.heap[h]
@@ -717,6 +720,9 @@ CORPUS = [
                                     [(("bin", "Add", ("col", "a"), ("lit", 1)), "a")], False)})],
     [("reg", "v", 0), ("sqlq", {"ctes": [("c2", ("sel", ("name", "v"), [], [(("col", "a"), "a")], False))],
                                 "main": ("sel", ("name", "c2"), [], [(("col", "a"), "c2")], False)})],
+    [("sqlq", {"ctes": [], "main": ("sel", ("join", ("name", "bt"), "x", ("name", "bt"), "y", ("bin", "Eq", ("col", "x.q"), ("col", "y.q"))), [],
+                                    [(("col", "x.q"), "q")], False)}),
+     ("joinb", 5, 5, "q", []), ("joinb", 6, 5, "q", [])],
     [("reg", "v", 0), ("reg", "v", 1), ("sqlq", {"ctes": [], "main": ("sel", ("name", "v"), [], None, False)}),
      ("sqlq", {"ctes": [], "main": ("sel", ("name", "v"), [], [(("col", "a"), "a"), (("col", "s"), "s")], False)})],
 ]
@@ -769,7 +775,10 @@ def corpus_history(desc, add_if_absent=True, **flags):
             g.emit(["joinb", h1, h2, kcol, rc],
                    f"(SJoinB {natlit(h1)} {natlit(h2)} {strlit(kcol)} {listlit([strlit(c) for c in rc])})", "joinb", sig,
                    f"heap[{h1}].join(heap[{h2}] renamed, on={kcol!r})")
-            g.push(out, g.heap[h1]["embedded"] | g.heap[h2]["embedded"], taint=sig, reads=g.heap[h1]["reads"] | g.heap[h2]["reads"])
+            g.push(out, g.heap[h1]["embedded"] | g.heap[h2]["embedded"], taint=sig, reads=g.heap[h1]["reads"] | g.heap[h2]["reads"],
+                   joined=g.heap[h1]["joined"] | g.heap[h2]["joined"] | {h1, h2})
+            if h2 in g.heap[h1]["joined"]:
+                g.meta[-1]["sigs"].append(SIG_REJOIN)
         elif d[0] == "obs":
             hd = g.heap[d[1]]
             g.emit(["obs", d[1]], f"(SObs {natlit(d[1])})", "obs", hd["taint"], f"heap[{d[1]}].collect()")
@@ -945,7 +954,7 @@ def run(ctx: core.Ctx):
                     "verdict(impl=model,impl=spec,model=spec,in_domain,engine=spec,alias_exact)": v[6 * i: 6 * i + 6],
                     "worker_steps": h["steps"][: i + 1], "coq_case": it if len(it) < 6000 else it[:6000] + "..."}
             beyond = any((x in m["sigs"] or x in inherited) and accepted(x, False, o)
-                         for x in (SIG_DUPCTE, SIG_SELFREF, SIG_ALIAS, SIG_CAPTURE))
+                         for x in (SIG_DUPCTE, SIG_SELFREF, SIG_ALIAS, SIG_CAPTURE, SIG_REJOIN))
             if not es and not m.get("selfref_cte"):
                 engine_fail.append(desc)
             if not isp or (es and not same_engine):
@@ -1023,6 +1032,16 @@ def accepted(sig, impl_equals_model, o) -> bool:
         # the captured inner CTE may close a cycle through the user's CTE of that name; how the engine's binder reports an
         # (unused) cyclic CTE is below the model
         return impl_equals_model or "Circular reference" in msg or "There is a WITH item named" in msg
+    if sig == SIG_REJOIN:
+        a, b = o["impl"], o["oracle"]
+        if "rows" not in a or "rows" not in b or a["cols"] != b["cols"] or len(a["rows"]) <= len(b["rows"]):
+            return False
+        rest = list(a["rows"])
+        for r in b["rows"]:
+            if r not in rest:
+                return False
+            rest.remove(r)
+        return True
     if sig == SIG_ALIAS:
         a, b = o["impl"], o["oracle"]
         return ("cols" in a and "cols" in b and len(a["cols"]) == len(b["cols"]) and a["cols"] != b["cols"]
@@ -1061,6 +1080,10 @@ def what_of(sig, o):
         return ("while the schema cache is empty (fresh session, no view registered, no session.table call) sqlglot's qualify "
                 "expands references to select aliases before resolving columns: in session.sql('select a + 1 as a from t where "
                 "a > 1') the WHERE column a becomes (a + 1) -- wrong rows without an error; an aggregate alias lands in WHERE")
+    if sig == SIG_REJOIN:
+        return ("df2 = df.join(df', on=k) with df' a projection of df, then df2.join(df'', on=k) with df'' again a projection of df: "
+                "the second join condition degenerates and every row is multiplied (DataFrame-level join of frames that share "
+                "their CTEs, cf. C02); no view is involved")
     if sig == SIG_ALIAS:
         return ("a column alias of the main SELECT that equals the name of a CTE of the same query is renamed together with the "
                 "CTE when the user's CTE names are replaced by crc32 names: the result column is called t<digits>")
